@@ -50,7 +50,7 @@ void verif_blank_visit(const Chunk *pc);
 void verif_blank_end();
 
 //! one record at the head and at the foot of every iteration of the code_width loop of uncrustify_file():
-//! cpd.changes, number of newline chunks, number of chunks
+//! cpd.changes, number of newline chunks, number of chunks, number of chunks flagged PCF_ONE_LINER
 void verif_width_iter(const char *point, int changes, bool first);
 
 //! logs top-level add_char() calls, not the recursive ones
